@@ -344,6 +344,90 @@ theorem callHof_anti (ih : Anti ops n) (d d' : Nat) (name : String) (args : List
   conv => rhs; rw [callHof.eq_2]
   (repeat' split at h) <;> anti_leaf
 
+theorem callFn_anti (ih : Anti ops n) (d d' : Nat) (fv this : Value) (args : List Value) (s : ES)
+    (hdd : d' ≤ d) (hf : fv.nsb = true) (ht : this.nsb = true) (ha : Value.nsbList args = true)
+    (hs : nsbEnv s.env = true) (h : ND (callFn ops (n+1) fv this args d s)) :
+    callFn ops (n+1) fv this args d' s = callFn ops (n+1) fv this args d s := by
+  have aEval := fun e s => ih.eval (d+1) (d'+1) e s (by omega) (by omega)
+  have aHof := fun name args s => ih.callHof (d+1) (d'+1) name args s (by omega)
+  clear ih
+  cases fv with
+  | lambda id params body scope =>
+    rw [callFn.eq_2] at h
+    conv => lhs; rw [callFn.eq_2]
+    conv => rhs; rw [callFn.eq_2]
+    simp only [Value.nsb, Bool.and_eq_true] at hf
+    split at h
+    · split at h
+      · simp at h
+      · rename_i hdm
+        have hdmax : ¬ d' > MAX_DEPTH := by omega
+        simp only [hdm, hdmax, if_false] at h ⊢
+        cases hpf : bindParams params args with
+        | ok pf =>
+          rw [hpf] at h
+          simp only [] at h ⊢
+          have hpfn := nsb_bindParams ha hpf
+          generalize hS : ({ env := _ :: _, nextId := s.nextId, names := s.names } : ES) = S at h ⊢
+          have hSn : nsbEnv S.env = true := by
+            subst hS
+            simp only [nsbEnv, Bool.and_eq_true]
+            refine ⟨nsb_foldl_insertAL _ _ hpfn ?_, ?_⟩
+            · split
+              · rename_i w hw
+                apply nsb_insertAL (nsb_envGet hs hw)
+                split
+                · split <;> simp [Value.nsbRec, ht]
+                · rfl
+              · split
+                · split <;> simp [Value.nsbRec, ht]
+                · rfl
+            · split
+              · exact hs
+              · simp [nsbEnv, hf.2, hs]
+          have hnd : ND (eval ops n (d + 1) body S) := by
+            intro hc
+            cases he : eval ops n (d + 1) body S with
+            | mk r s1 => rw [he] at hc h; simp at hc; subst hc; simp at h
+          rw [aEval body S hf.1 hSn hnd]
+        | err k => simp
+        | panic p => simp
+        | fuel => simp
+    · rfl
+    · rfl
+    · rfl
+  | builtin name =>
+    have hpf : ∀ {name args v}, callPure ops name args = some (.ok v) → Value.nsbList args = true →
+      v.nsb = true := fun h => hp _ _ _ h
+    rw [callFn.eq_3] at h
+    conv => lhs; rw [callFn.eq_3]
+    conv => rhs; rw [callFn.eq_3]
+    simp only [Value.nsb, bne_iff_ne, ne_eq] at hf
+    (repeat' split at h) <;> anti_leaf
+  | _ => simp [callFn]
+
+theorem eval_anti (ih : Anti ops n) (d d' : Nat) (e : Expr) (s : ES) (hdd : d' ≤ d) (hd0 : 0 < d')
+    (he : e.nsb = true) (hs : nsbEnv s.env = true)
+    (h : ND (eval ops (n+1) d e s)) : eval ops (n+1) d' e s = eval ops (n+1) d e s := by
+  have gEval := @(pres hp n).eval; have gList := @(pres hp n).evalList
+  have gItems := @(pres hp n).evalItems; have gEntries := @(pres hp n).evalEntries
+  have gStmt := @(pres hp n).evalDoStmt; have gDo := @(pres hp n).evalDo
+  have gCall := @(pres hp n).callFn; have gMap := @(pres hp n).mapCalls
+  have gQuant := @(pres hp n).quantCalls; have gFold := @(pres hp n).foldCalls
+  have gHof := @(pres hp n).callHof; have gBin := @(pres hp n).evalBin
+  have gVia := @(pres hp n).viaPairs; have gWhere := @(pres hp n).whereCalls
+  have aEval := fun e s => ih.eval d d' e s hdd hd0
+  have aList := fun es s => ih.evalList d d' es s hdd hd0
+  have aItems := fun es s => ih.evalItems d d' es s hdd hd0
+  have aEntries := fun es acc s => ih.evalEntries d d' es acc s hdd hd0
+  have aDo := fun st ret s => ih.evalDo d d' st ret s hdd hd0
+  have aCall := fun fv this args s => ih.callFn d d' fv this args s hdd
+  have aBin := fun op a b s => ih.evalBin d d' op a b s hdd
+  have hd0' : 0 < d := by omega
+  clear ih
+  cases e <;> (rw [eval] at h; conv => lhs; rw [eval]) <;> (conv => rhs; rw [eval]) <;>
+    (repeat' split at h) <;> anti_leaf
+
 end antiStep
 
 end Blots
